@@ -249,7 +249,7 @@ func (g *tgen) genSpec(cont string, inTy ty, in any, depth int) *tspec {
 	if depth > 0 {
 		nseg = r.Range(1, 2)
 	}
-	cur := []pend{{in, inTy, false, inTy}}
+	cur := []pend{{V: in, Ty: inTy, STy: inTy}}
 	lastKind := "start"
 	for i := 0; i < nseg; i++ {
 		kind := "node"
@@ -300,7 +300,7 @@ type prefixEval struct {
 // the next consumer (stand-ins of the declared types if the evaluation stops on the way).
 func evalSpecPrefix(s *tspec, in any) prefixEval {
 	r := &rres{}
-	cur := r.segs(s, []pend{{in, s.In, false, s.In}}, refEnv{})
+	cur := r.segs(s, []pend{{V: in, Ty: s.In, STy: s.In}}, refEnv{})
 	return prefixEval{r, cur}
 }
 
@@ -524,7 +524,7 @@ func (g *tgen) genMapping(p pend) (*fmapSpec, ty) {
 	// the target: the whole input, or a field / key of it
 	toWhole := m.From != "" && r.Prob(0.5)
 	if toWhole {
-		return m, g.chooseIn([]pend{{taken, ft, false, ft}}, 0.85)
+		return m, g.chooseIn([]pend{{V: taken, Ty: ft, STy: ft}}, 0.85)
 	}
 	// candidates (successor type, field) whose field type may take ft
 	type cand struct {
